@@ -26,14 +26,15 @@ Readings fixed here (each is the reading under which the repaired code is right)
   int(time_margin*time_div) frames, the trailing one time_margin*time_div with the column count rounded up;
   `end_time` may be a one-element array / list (fix C13-2); frames that would fall outside [0, columns)
   (only possible with a negative time_div / time_margin) cannot be shown, such a call is rejected;
-  no verdict of the oracle (the model comparison still applies) for a `time_div` given as an array with a
-  dimension and for an `end_time` sequence that does not have exactly one element;
+  an `end_time` sequence that does not have exactly one element is rejected; no verdict of the oracle (the
+  model comparison still applies) for a `time_div` given as an array with a dimension;
 * inputs other than a structured array go through `ensure_notearray`: Part / PartGroup / Score / list of
   Parts give a score note array (beat, quarter, div columns; no velocity - every note counts 1; no channel),
   PerformedPart / Performance a performance note array (sec, tick; velocity; channel - drums are dropped when
   `remove_drums`); the rows of that note array (another property's subject) are taken from the
-  implementation, "input order" is their order; anything else (unstructured array, list of PerformedParts,
-  empty list, other objects) is rejected.
+  implementation, "input order" is their order; anything else (unstructured array, empty list, other objects)
+  is rejected; a list of PerformedParts is documented as performance-like but rejected by ensure_notearray:
+  the oracle gives no verdict on its acceptance (if accepted, the roll must be that of the performance array).
 """
 import math
 import warnings
@@ -65,7 +66,7 @@ TRUSTED = [
 ]
 PARTIAL = [
     "cell_iff / cell_binary / idx_designate / decode_encode assume MIDI velocities > 0 (a velocity-0 note yields an explicit zero cell; cell_value covers that case)",
-    "decode_encode: stated for the options under which times can be read back (RoundTripOpts: no onset mode / separation / margins / end_time, remove_silence=False, not binary) and onsets >= 0 on the grid, over the exact rational times; the float32 columns are covered by stored_times (error bound) and stored_exact (exactness on power-of-two grids), not by a round trip through re-rasterisation",
+    "decode_encode: stated for the options under which times can be read back (RoundTripOpts: no onset mode / separation / margins / end_time, remove_silence=False, not binary) and onsets >= 0 on the grid, over the exact rational times; the float32 columns are covered by round_spec / stored_close (error bound 2^-23) and stored_exact / stored_grid (exactness on power-of-two grids), not by a round trip through re-rasterisation",
     "float effects inside the rasteriser (binary64 products before np.round) and the float division of the normalised pitch-class roll are outside the exact-rational model: checked per case / compared with tolerance, not proved",
     "scipy sparse assembly, slicing and toarray are trusted primitives (Roll.cell is their assumed meaning); compared cell by cell",
     "argument kinds outside the model: non-numeric strings / booleans for time_div, end_time, time_margin; non-integer pitch_margin; float-valued rolls for the decoder",
@@ -472,7 +473,7 @@ def et_tok(et):
 
 
 def et_scalar(et):
-    """the number an `end_time` argument stands for; 'skip' when the oracle gives no verdict"""
+    """the number an `end_time` argument stands for; 'skip' for a sequence that does not have exactly one element"""
     if isinstance(et, dict):
         xs = et["arr"] if "arr" in et else et["list"]
         return xs[0] if len(xs) == 1 else "skip"
@@ -723,7 +724,10 @@ def check_roll(lay, arr, e, res, exc):
     unit, td = sel
     et = et_scalar(e["et"])
     if et == "skip":
-        return fails, "skip"
+        # a sequence that does not have exactly one element names no end time (fixes/C13-2: `.item()`)
+        if exc is None:
+            fails.append("error: an end_time sequence with %d elements was accepted" % len(e["et"].get("arr", e["et"].get("list"))))
+        return fails, None
     notes = notes_of(lay, arr, e, unit)
     exp = rasterise(notes, e, td, et)
     if exp[0] == "err":
@@ -837,8 +841,20 @@ def eval_pr(d):
     src = d.get("src", "array")
     inp = build_input(d)
     lay = layout_of(d)
+    neutral = False
+    if src == "performedpartlist":
+        # documented as performance-like (PerformanceLike = Union[List[PerformedPart], ...]) but rejected by
+        # ensure_notearray ("should be a list of Part objects"): no verdict on acceptance; when it is accepted
+        # the roll must be that of the performance note array
+        arr, _ = call(M.ensure_notearray, inp)
+        if arr is not None:
+            lay = (list(PERF_UNITS), True, True)
+        else:
+            neutral = True
     if src == "array":
         arr = inp
+    elif neutral:
+        arr = None
     elif lay is not None:
         arr, _ = call(M.ensure_notearray, inp)
         if arr is not None:
@@ -860,7 +876,7 @@ def eval_pr(d):
     for o in d["opts"]:
         e = effective(o)
         res, exc = call(M.compute_pianoroll, inp, **kwargs_of(o))
-        fails, info = check_roll(lay, arr, e, res, exc)
+        fails, info = ([], None) if neutral else check_roll(lay, arr, e, res, exc)
         if info == "inexact":
             skipped += 1
             continue
